@@ -63,10 +63,21 @@ def numba_cache_dir(tag="main"):
     d = os.path.join(base, tag, dig)
     parent = os.path.dirname(d)
     if os.path.isdir(parent):
+        # Only caches that nobody touched for three hours: a run against another tree (seeded change, a commit
+        # made while a sweep is running) may still be using its own digest directory.
+        now = time.time()
         for other in os.listdir(parent):
-            if other != dig:
-                shutil.rmtree(os.path.join(parent, other), ignore_errors=True)
+            op = os.path.join(parent, other)
+            try:
+                if other != dig and now - os.path.getmtime(op) > 3 * 3600:
+                    shutil.rmtree(op, ignore_errors=True)
+            except OSError:
+                pass
     os.makedirs(d, exist_ok=True)
+    try:
+        os.utime(d, None)       # mark as in use
+    except OSError:
+        pass
     return d
 
 
